@@ -332,6 +332,23 @@ func runCheck(P *Program, DB *ContractDB, prop, tier string, only string) *check
 					rep = VerifyFunc(P, DB, P.Funcs[fname], k, prop)
 				}()
 				if rep != nil {
+					// what an implicit contract answers for: the preconditions of the listed
+					// callees, preconditions tagged with this property, and vacuity
+					var keep []*Obligation
+					for _, o := range rep.Obligations {
+						ok := o.Kind == "vacuity" && !o.Soft || o.Kind == "requires" && o.Tagged
+						if o.Kind == "requires" && !ok {
+							for c := range cs.Callees {
+								if strings.Contains(o.Name, " "+c+"/requires[") {
+									ok = true
+								}
+							}
+						}
+						if ok {
+							keep = append(keep, o)
+						}
+					}
+					rep.Obligations = keep
 					rep.Func += " (implicit contract)"
 					addRep(rep)
 				}
@@ -464,6 +481,21 @@ func runCheck(P *Program, DB *ContractDB, prop, tier string, only string) *check
 			continue
 		}
 		rep := VerifyConstGlobal(P, DB, name, prop)
+		res.reports = append(res.reports, rep)
+		res.funcs = append(res.funcs, rep.Func)
+		obls = append(obls, rep.Obligations...)
+	}
+	for _, nd := range DB.NoWholeStore {
+		has := false
+		for _, p := range nd.Props {
+			if p == prop {
+				has = true
+			}
+		}
+		if !has || only != "" && !strings.Contains(nd.Type, only) {
+			continue
+		}
+		rep := VerifyNoWholeStore(P, DB, nd, prop)
 		res.reports = append(res.reports, rep)
 		res.funcs = append(res.funcs, rep.Func)
 		obls = append(obls, rep.Obligations...)
@@ -1363,10 +1395,22 @@ func callSiteOwners(P *Program, cs *CallSitesDecl) []string {
 			}
 		}
 		if found {
-			out = append(out, fname)
+			// a closure its parent calls or defers in place is checked inlined in the
+			// parent (on the normal and on the panicking path)
+			for fn.Parent() != nil && runInPlace(fn) {
+				fn = fn.Parent()
+			}
+			out = append(out, QualName(fn))
 		}
 	}
-	return out
+	sort.Strings(out)
+	var ded []string
+	for i, f := range out {
+		if i == 0 || out[i-1] != f {
+			ded = append(ded, f)
+		}
+	}
+	return ded
 }
 
 func pkgOfQual(q string) string {
